@@ -11,10 +11,10 @@ def expectedC18 : List (String × String) := [
   ("file:comparison.py", "c46d05a1308c92ce"),
   ("file:compat.py", "2a259e16acd200bc"),
   ("file:config.py", "142bde514c82c29d"),
-  ("file:io/json.py", "5e1ef8b67f567a77"),
+  ("file:io/json.py", "88171728b8aebfec"),
   ("file:transform/sorts.py", "137f7e8a70e043fe"),
   ("file:util/base.py", "771a68108eeb730d"),
-  ("io.json.DictsGeneratorView", "814ca50f549ea08b"),
+  ("io.json.DictsGeneratorView", "c8aa475e2b283f0e"),
   ("transform.sorts.SortView", "39c82fa00f3f0fc2"),
   ("transform.sorts._NamedTempFileDeleteOnGC", "fe187490fb07ae00")
 ]
